@@ -203,6 +203,15 @@ EXPORT errno_t _wcsrtombs_s_chk(size_t *restrict retvalp, char *restrict dest,
 
     /* the C library may store up to len bytes: never more than dmax */
     l = *retvalp = wcsrtombs(dest, srcp, (dest && len > dmax) ? dmax : len, ps);
+    /* cut at dmax in front of a character that len would have admitted:
+       that is "no room", not a shorter result */
+    if (dest && len > dmax && l < dmax && *srcp != NULL) {
+        char tmp[MB_LEN_MAX];
+        mbstate_t st = *ps;
+        size_t c = wcrtomb(tmp, **srcp, &st);
+        if (c != (size_t)-1 && l + c <= len)
+            l = dmax;
+    }
 
     if (likely(l > 0 && l < dmax)) {
 #ifdef SAFECLIB_STR_NULL_SLACK
